@@ -88,16 +88,32 @@ class RowEval:
 def r1(ctx):
     f = ctx.fn(MOLECULE, FN)
     env = {s.targets[0].id: s.value for s in f.body if isinstance(s, ast.Assign) and isinstance(s.targets[0], ast.Name)}
-    rets = [r for r in walk_no_nested(f) if isinstance(r, ast.Return) and r.value is not None and 'locations' in names_in(r.value)]
+    # a returned local that holds the consensus dictionary stands for its defining expression
+    import copy as _copy
+    single = {k: v for k, v in env.items() if sum(1 for s_ in walk_no_nested(f) if isinstance(s_, ast.Assign) and any(isinstance(t_, ast.Name) and t_.id == k for t_ in s_.targets)) == 1}
+
+    class _Exp(ast.NodeTransformer):
+        def visit_Name(self, node):
+            if isinstance(node.ctx, ast.Load) and node.id in single and 'locations' in names_in(single[node.id]) and node.id != 'locations' and isinstance(single[node.id], ast.Call) \
+                    and dotted(single[node.id].func) == 'dict':
+                return _copy.deepcopy(single[node.id])
+            return node
+    rets_all = [r for r in walk_no_nested(f) if isinstance(r, ast.Return) and r.value is not None]
+    expanded = {id(r): _Exp().visit(_copy.deepcopy(r.value)) for r in rets_all}
+    rets = [r for r in rets_all if 'locations' in names_in(expanded[id(r)])]
     ctx.need('C13-R1', len(rets), 2, 'returns of the consensus dictionary')
     masks = set()
     idxs = set()
     mod = ctx.ix.module(MOLECULE)
     for r in rets:
-        for n in walk_no_nested(r.value):
+        parent_of = {}
+        for p_ in ast.walk(expanded[id(r)]):
+            for c_ in ast.iter_child_nodes(p_):
+                parent_of[c_] = p_
+        for n in walk_no_nested(expanded[id(r)]):
             if isinstance(n, ast.Subscript) and src(n.value) == 'locations':
                 masks.add(src(n.slice))
-            if isinstance(n, ast.Name) and n.id == 'locations' and not isinstance(mod.parent.get(n), ast.Subscript):
+            if isinstance(n, ast.Name) and n.id == 'locations' and not isinstance(parent_of.get(n), ast.Subscript):
                 masks.add('<unmasked>')
             if isinstance(n, ast.Subscript) and src(n.value) in env and 'argmax' in src(env[src(n.value)]):
                 idxs.add((src(n.value), src(n.slice)))
